@@ -339,6 +339,52 @@ class UpdateCachedStateNum:
     ensures = [caches_when_there_is_a_cache]
 
 
+def _bdu_setup(it):
+    """the pairing-side handler the scanner callback runs for a loaded pairing: connected or not, seen recently or not,
+    with / without an earlier description, with / without cached accessory state (the situation in which it used to
+    raise), shut down or not"""
+    import time
+    from aiohomekit.controller.abstract import AbstractPairing
+
+    p = SObj(BlePairing, label="ble-pairing")
+    st = _AccState(it) if it.ctx.choose(["cached-state", "no-cached-state"]) == "cached-state" else None
+    now = it.fresh(Int, "now")
+    it.env.stub(time.monotonic, lambda it: now)
+    old_desc = SObj(object, {"state_num": it.fresh(Int, "old_state_num"), "config_num": 1, "name": "N"}, label="old-description") if it.ctx.choose([1, 0]) else None
+    new_desc = SObj(object, {"state_num": it.fresh(Int, "adv_state_num"), "config_num": 1, "name": "N"}, label="new-description")
+
+    def super_update(it, self, description):
+        it.ctx.trace.append(("super_description_update", description))
+        self.fields["description"] = description
+
+    it.env.stub(AbstractPairing._async_description_update, super_update)
+    p.fields.update(
+        _accessories_state=st, _update_accessories_state_cache=_RecCall("_update_accessories_state_cache"),
+        client=None, _encryption_key=None, _last_seen=it.fresh(Int, "last_seen"), description=old_desc, id="aa:bb:cc:dd:ee:ff",
+        _callback_availability_changed=_RecCall("availability_changed"),
+    )
+    it.ctx.ghost.update(new_desc=new_desc, st=st)
+    return {"self": p, "description": new_desc}
+
+
+@contract("aiohomekit.controller.ble.pairing:BlePairing._async_description_update", prop="C19")
+class BleDescriptionUpdate:
+    setup = _bdu_setup
+    raises = {}  # runs inside the scanner callback
+
+    def description_and_state_number_taken(self, ghost, trace):
+        """the advertised description reaches the pairing exactly once and the advertised state number is what a cached
+        accessory state remembers afterwards"""
+        sup = [e for e in trace if e[0] == "super_description_update"]
+        return (
+            len(sup) == 1
+            and sup[0][1] is ghost["new_desc"]
+            and (self._accessories_state is None or self._accessories_state.state_num == ghost["new_desc"].state_num)
+        )
+
+    ensures = [description_and_state_number_taken]
+
+
 # ------------------------------------------------------------------------------------------------- BLE detection callback
 
 
